@@ -129,6 +129,31 @@ def check_vector_map(fx, rep):
                 sample={"rule": "R19.1", "fn": name, "step": op, "guards": [f"{k}({T.short(s)[:50]})" for k, s in facts], "at": w},
             )
     rep.floor("R19.1", n_writes, 2, f"writes to VectorMap::{cnt}")
+    # operations that change how many slots are occupied without going through the counted write / take idiom
+    for name, b in sorted(fns.items()):
+        root = b["hir"]["value"]
+        mutated = T.mutated_locals(root)
+        for n, ps in F.calls(root):
+            if n.get("k") != "MethodCall" or n["method"] not in ("pop", "remove", "swap_remove", "truncate", "clear", "drain", "retain", "split_off", "dedup"):
+                continue
+            if not field_of_self(T.term(n["recv"], T.Env(), mutated), "data"):
+                continue
+            # accepted only when a counter write follows in the same block (e.g. clear + size = 0)
+            blk = None
+            for anc, key in reversed(ps):
+                if "stmts" in anc:
+                    blk = anc
+                    break
+            followed = False
+            if blk is not None:
+                nk = T._span_key(n["span"])
+                for st in blk["stmts"]:
+                    e = st.get("e") if st.get("s") == "Expr" else None
+                    if e is not None and e.get("k") in ("Assign", "AssignOp") and field_of_self(T.term(e["l"], T.Env(), mutated), cnt) and T._span_key(e["span"])[1] >= nk[2]:
+                        followed = True
+                    if e is not None and e.get("k") == "If" and any(m.get("k") in ("Assign", "AssignOp") and field_of_self(T.term(m["l"], T.Env(), mutated), cnt) for m, _ in F.walk(e)) and T._span_key(e["span"])[1] >= nk[2]:
+                        followed = True
+            rep.oblige(followed, "R19.1", f"uncounted-removal:{name}:{n['method']}", F.loc(n["span"]), f"`VectorMap::{name}` removes entries from the backing vector with `{n['method']}` without adjusting `{cnt}` afterwards: the reported length drifts from the number of stored entries")
     # readers ------------------------------------------------------------------------------
     for name, want in (("len", "field"), ("is_empty", "eq0")):
         b = fns.get(name)
